@@ -52,11 +52,13 @@ pub struct Bx {
     pub typ: Fourcc,
     pub start: usize,
     pub end: usize,
+    /// 8, or 16 when the box uses the 64-bit largesize form (size field 1)
+    pub hdr: usize,
 }
 
 impl Bx {
     pub fn pstart(&self) -> usize {
-        self.start + 8
+        self.start + self.hdr
     }
     pub fn size(&self) -> usize {
         self.end - self.start
@@ -85,8 +87,17 @@ pub fn children(d: &[u8], start: usize, end: usize, path: &str, pr: &mut Probs) 
             pr.add(Class::Tile, format!("{path}/slack"), format!("{} stray bytes at {pos}", end - pos));
             break;
         }
-        let size = be32(d, pos) as usize;
+        let mut size = be32(d, pos) as usize;
         let typ: Fourcc = [d[pos + 4], d[pos + 5], d[pos + 6], d[pos + 7]];
+        let mut hdr = 8;
+        if size == 1 && end - pos >= 16 {
+            // ISO 14496-12 4.2: size 1 = the actual size is in the 64-bit largesize field
+            let large = be64(d, pos + 8);
+            if large >= 16 && large <= (end - pos) as u64 {
+                size = large as usize;
+                hdr = 16;
+            }
+        }
         if size < 8 {
             pr.add(Class::Tile, format!("{path}/{}/size<8", fcc(&typ)), format!("size {size} at {pos}"));
             break;
@@ -99,7 +110,7 @@ pub fn children(d: &[u8], start: usize, end: usize, path: &str, pr: &mut Probs) 
             );
             break;
         }
-        out.push(Bx { typ, start: pos, end: pos + size });
+        out.push(Bx { typ, start: pos, end: pos + size, hdr });
         pos += size;
     }
     out
@@ -226,6 +237,8 @@ pub struct Track {
     pub stsz_count: u32,
     pub stco: Vec<u64>,
     pub stco_pos: Vec<usize>,
+    /// chunk offsets come from a co64 box (8 bytes each)
+    pub co64: bool,
     pub stss: Option<Vec<u32>>,
     pub elst: Option<Elst>,
     pub trak: Bx,
@@ -603,6 +616,7 @@ fn parse_trak(d: &[u8], trak: &Bx, kind: &str, index: usize, pr: &mut Probs) -> 
         stsz_count: 0,
         stco: vec![],
         stco_pos: vec![],
+        co64: false,
         stss: None,
         elst: None,
         trak: trak.clone(),
@@ -719,7 +733,7 @@ fn parse_trak(d: &[u8], trak: &Bx, kind: &str, index: usize, pr: &mut Probs) -> 
     let spath = format!("{ipath}/stbl");
     let sk = children(d, stbl.pstart(), stbl.end, &spath, pr);
     for b in &sk {
-        if ![b"stsd", b"stts", b"ctts", b"stsc", b"stsz", b"stco", b"stss"].iter().any(|t| b.is(t)) {
+        if ![b"stsd", b"stts", b"ctts", b"stsc", b"stsz", b"stco", b"co64", b"stss"].iter().any(|t| b.is(t)) {
             pr.add(Class::Mandatory, format!("{spath}/unexpected/{}", fcc(&b.typ)), "unexpected child of stbl");
         }
     }
@@ -821,7 +835,20 @@ fn parse_trak(d: &[u8], trak: &Bx, kind: &str, index: usize, pr: &mut Probs) -> 
             }
         }
     }
-    if let Some(b) = one(&sk, b"stco", &spath, pr) {
+    if let Some(b) = sk.iter().find(|b| b.is(b"co64")).filter(|_| !sk.iter().any(|b| b.is(b"stco"))) {
+        // 64-bit chunk offsets (ISO 14496-12 8.7.5): exactly one of stco / co64
+        if let Some((v, n)) = table(b, "co64", 8, pr) {
+            if v != 0 {
+                pr.add(Class::Spec, format!("{kind}/co64[{tag}]/version"), format!("version {v}"));
+            }
+            for i in 0..n {
+                let o = b.pstart() + 8 + 8 * i;
+                t.stco.push(be64(d, o));
+                t.stco_pos.push(o);
+                t.co64 = true;
+            }
+        }
+    } else if let Some(b) = one(&sk, b"stco", &spath, pr) {
         if let Some((v, n)) = table(b, "stco", 4, pr) {
             if v != 0 {
                 pr.add(Class::Spec, format!("{kind}/stco[{tag}]/version"), format!("version {v}"));
@@ -1361,7 +1388,8 @@ pub fn reduced_moov(d: &[u8], m: &Movie, strip_meta: bool) -> Vec<u8> {
     for t in &m.tracks {
         for &p in &t.stco_pos {
             let r = p - moov.start;
-            v[r..r + 4].copy_from_slice(&[0; 4]);
+            let w = if t.co64 { 8 } else { 4 };
+            v[r..r + w].fill(0);
         }
         if strip_meta && t.mdhd_lang_pos != 0 {
             let r = t.mdhd_lang_pos - moov.start;
@@ -1549,4 +1577,29 @@ pub fn describe(p: &[&Problem]) -> String {
         let _ = write!(s, "(+{} more)", p.len() - 6);
     }
     s
+}
+
+#[cfg(test)]
+mod tests {
+    use super::*;
+
+    #[test]
+    fn largesize_boxes_tile() {
+        let mut d = vec![0, 0, 0, 1];
+        d.extend_from_slice(b"mdat");
+        d.extend_from_slice(&24u64.to_be_bytes());
+        d.extend_from_slice(&[7u8; 8]);
+        d.extend_from_slice(&[0, 0, 0, 8]);
+        d.extend_from_slice(b"free");
+        let mut pr = Probs::default();
+        let k = children(&d, 0, d.len(), "", &mut pr);
+        assert!(pr.0.is_empty(), "{:?}", pr.0);
+        assert_eq!(k.len(), 2);
+        assert_eq!((k[0].start, k[0].end, k[0].pstart()), (0, 24, 16));
+        assert_eq!((k[1].start, k[1].end, k[1].pstart()), (24, 32, 32));
+        // a size field of 1 without room for the largesize field is still a tiling problem
+        let mut pr = Probs::default();
+        let _ = children(&d[..12], 0, 12, "", &mut pr);
+        assert!(!pr.0.is_empty());
+    }
 }
